@@ -214,9 +214,10 @@ where
 
     let lsh: usize = (base2k - k_rem) % base2k;
 
-    // All limbs of a that would fall outside of the limbs of res are discarded,
-    // but the carry still need to be computed.
-    for j in 0..steps {
+    // All limbs of res that fall outside of its own limbs once shifted are discarded,
+    // but their carry still needs to be computed (before they are overwritten).
+    let out_range: usize = steps.min(size);
+    for j in 0..out_range {
         if j == 0 {
             ZNXARI::znx_normalize_first_step_carry_only(base2k, lsh, res.at(res_col, size - j - 1), carry);
         } else {
@@ -225,24 +226,33 @@ where
     }
 
     // No limb is shifted out: there is no carry to start from
-    if steps == 0 {
+    if out_range == 0 {
         ZNXARI::znx_zero(carry);
     }
 
+    // Shifts larger than the whole vector: the limb positions between the discarded limbs and the
+    // last limb of res hold no input, the carry is reduced through each of them.
+    for _ in size..steps {
+        carry.iter_mut().for_each(|c| {
+            let digit: i64 = crate::reference::znx::get_digit_i64(base2k, *c);
+            *c = crate::reference::znx::get_carry_i64(base2k, *c, digit);
+        });
+    }
+
     // Continues with shifted normalization
-    for j in 0..size - steps {
-        ZNXARI::znx_copy(tmp, res.at(res_col, size - steps - j - 1));
+    for j in 0..size - out_range {
+        ZNXARI::znx_copy(tmp, res.at(res_col, size - out_range - j - 1));
         ZNXARI::znx_normalize_middle_step_assign(base2k, lsh, tmp, carry);
         ZNXARI::znx_copy(res.at_mut(res_col, size - j - 1), tmp);
     }
 
-    // Propagates carry on the rest of the limbs of res
-    for j in 0..steps {
+    // Propagates the carry on the upper limbs of res (which receive no input), most significant last
+    for j in (0..out_range).rev() {
         ZNXARI::znx_zero(res.at_mut(res_col, j));
         if j == 0 {
-            ZNXARI::znx_normalize_final_step_assign(base2k, lsh, res.at_mut(res_col, steps - j - 1), carry);
+            ZNXARI::znx_normalize_final_step_assign(base2k, lsh, res.at_mut(res_col, j), carry);
         } else {
-            ZNXARI::znx_normalize_middle_step_assign(base2k, lsh, res.at_mut(res_col, steps - j - 1), carry);
+            ZNXARI::znx_normalize_middle_step_assign(base2k, lsh, res.at_mut(res_col, j), carry);
         }
     }
 }
@@ -303,6 +313,15 @@ pub fn vec_znx_rsh<R, A, ZNXARI, const OVERWRITE: bool>(
 
     if a_out_range == 0 {
         ZNXARI::znx_zero(carry);
+    }
+
+    // Shifts that move the whole of `a` more than one limb below the last limb of `res`: the limb
+    // positions in between hold no input, the carry is reduced through each of them.
+    for _ in 0..(if a_out_range != 0 && a_start == 0 { steps.saturating_sub(res_size) } else { 0 }) {
+        carry.iter_mut().for_each(|c| {
+            let digit: i64 = crate::reference::znx::get_digit_i64(base2k, *c);
+            *c = crate::reference::znx::get_carry_i64(base2k, *c, digit);
+        });
     }
 
     if OVERWRITE {
@@ -389,6 +408,15 @@ where
 
     if a_out_range == 0 {
         ZNXARI::znx_zero(carry);
+    }
+
+    // Shifts that move the whole of `a` more than one limb below the last limb of `res`: the limb
+    // positions in between hold no input, the carry is reduced through each of them.
+    for _ in 0..(if a_out_range != 0 && a_start == 0 { steps.saturating_sub(res_size) } else { 0 }) {
+        carry.iter_mut().for_each(|c| {
+            let digit: i64 = crate::reference::znx::get_digit_i64(base2k, *c);
+            *c = crate::reference::znx::get_carry_i64(base2k, *c, digit);
+        });
     }
 
     let mid_range: usize = res_start.saturating_sub(res_end);
